@@ -294,6 +294,14 @@ class GuardDefinition:
                 )
                 if nested is not None:
                     children_cfg = [nested]
+            # 🛡️ Operands are a LIST of guards. A scalar raised a raw
+            #    "'bool' object is not iterable"; a string or a mapping was
+            #    iterated silently (characters / keys became guard names).
+            if not isinstance(children_cfg, (list, tuple)):
+                raise InvalidConfigError(
+                    f"❌ Guard '{guard_type}' must list its nested guards in "
+                    f"a list, got {type(children_cfg).__name__}: {config!r}"
+                )
         else:
             raise InvalidConfigError(
                 "❌ Guard must be a string or a dictionary, "
